@@ -90,6 +90,9 @@ PYFAIL = {
     "raise_value": "raise ValueError('boom')\n", "raise_zerodiv": "x = 1 / 0\n", "raise_key": "{}['nokey']\n",
     "raise_custom": "class E(Exception):\n    pass\nraise E()\n", "syntax": "run_command(name='t' run='true')\n",
     "name": "run_commandd(name='t', run='true')\n", "recursion": "def f():\n    return f()\nf()\n",
+    "syntax_dup_kwarg": "run_command(name='t', run='true', name='u')\n", "syntax_toplevel_return": "return 5\n",
+    "syntax_dup_param": "def f(a, a):\n    pass\n", "syntax_break": "break\n", "syntax_nonlocal": "nonlocal x\n",
+    "indentation": "if True:\nx = 1\n", "tabs": "if True:\n\tx = 1\n        y = 2\n", "nullbyte": "x = 1\x00\n",
     "notutf8": None, "condisdir": None, "typeerror_call": "run_command('t', 'true')\n", "assertion": "assert False, 'no'\n",
     "importerror": "import definitely_not_a_module_xyz\n", "oserror": "open('/nonexistent/file/xyz')\n",
 }
